@@ -5,7 +5,7 @@ import subprocess
 
 from .tlc import scratch
 
-REPO = os.environ.get("VERIF_REPO", "/repo")
+REPO = os.environ.get("VERIF_REPO") or "/repo"
 VERIF = os.path.dirname(os.path.dirname(os.path.abspath(__file__)))
 PY = os.environ.get("VERIF_PY", "/venv/bin/python")
 
